@@ -563,23 +563,25 @@ def gen_case(rng, ctx):
     r = rng.random()
     overlap = None
     if r < 0.25 and n >= 2:
-        overlap = ['linear', 'wrap_end_gt_360', 'wrap_negative_begin'][rng.integers(0, 3)]
-    span = overlap in ('wrap_end_gt_360', 'wrap_negative_begin') or (overlap is None
-                                                                       and rng.random() < 0.6)
+        # the spanning slit is written with end > 360 or with a negative begin, and overlaps its neighbour
+        # after top-dead-centre (its end reaches into the next slit) or before it (its begin reaches back)
+        overlap = ['linear', 'wrap_end_gt_360', 'wrap_negative_begin', 'wrap_end_gt_360_before',
+                   'wrap_negative_begin_after'][rng.integers(0, 5)]
+    span = (overlap or '').startswith('wrap_') or (overlap is None and rng.random() < 0.6)
     b, e, w, g, js = gen_slits_deg(rng, n, span)
     rep = 'none'
     if js is not None:
         rep = 'end>360'
-        neg = overlap == 'wrap_negative_begin' or (overlap is None and rng.random() < 0.5)
+        neg = (overlap or '').startswith('wrap_negative_begin') or (overlap is None and rng.random() < 0.5)
         if neg:
             b[js] -= 360.0
             e[js] -= 360.0
             rep = 'negative_begin'
     frac = rng.uniform(0.05, 0.95)
-    if overlap == 'wrap_end_gt_360':
+    if overlap in ('wrap_end_gt_360', 'wrap_negative_begin_after'):
         nb = (js + 1) % n
         e[js] += g[js] + frac * w[nb]
-    elif overlap == 'wrap_negative_begin':
+    elif overlap in ('wrap_negative_begin', 'wrap_end_gt_360_before'):
         pv = (js - 1) % n
         b[js] -= g[pv] + frac * w[pv]
     elif overlap == 'linear':
